@@ -16,7 +16,7 @@ PROP = {
     "streams": [{"name": "c06", "shards": {"quick": 2, "thorough": 16}},
                 {"name": "c06.block", "shards": {"quick": 2, "thorough": 8}}],
     "modules": ["GbVerif.Model.Interp", "GbVerif.Model.Cpu", "GbVerif.Model.Op", "GbVerif.Spec.SM83", "GbVerif.Proofs.Enum", "GbVerif.Proofs.Sm83Bits", "GbVerif.Proofs.Sm83Abs", "GbVerif.Proofs.Sm83Alu", "GbVerif.Proofs.Sm83Rot", "GbVerif.Proofs.Sm83Misc", "GbVerif.Proofs.Sm83Rel", "GbVerif.Proofs.Sm83Cls1", "GbVerif.Proofs.Sm83Cls2", "GbVerif.Proofs.Sm83Cls3", "GbVerif.Proofs.Sm83Leaf", "GbVerif.Proofs.Sm83Main0", "GbVerif.Proofs.Sm83Main1", "GbVerif.Proofs.Sm83Main2", "GbVerif.Proofs.Sm83Main3", "GbVerif.Proofs.Sm83Main4", "GbVerif.Proofs.Sm83Main5", "GbVerif.Proofs.Sm83Main6", "GbVerif.Proofs.Sm83Main7", "GbVerif.Proofs.Sm83MainCB0", "GbVerif.Proofs.Sm83MainCB1", "GbVerif.Proofs.Sm83MainCB2", "GbVerif.Proofs.Sm83MainCB3", "GbVerif.Proofs.Sm83MainCB4", "GbVerif.Proofs.Sm83MainCB5", "GbVerif.Proofs.Sm83MainCB6", "GbVerif.Proofs.Sm83MainCB7", "GbVerif.Proofs.Sm83Main", "GbVerif.Proofs.InterpLen"],
-    "rule": "c06.block: whole blocks through interpreter::run_code_block - 0..3000 one-byte one-cycle instructions + HALT / EI / DI in ROM bank 0, the switchable bank, work RAM and high RAM must end at the terminator and nowhere else (PC, cycles, status; model of the block loop); every first byte at the six addresses around 0x3FFF/0x7FFF again with ROM banks 2 and 3 mapped (the part of the instruction above 0x4000 must come from the mapped bank); all 256 first bytes (incl. the 11 undefined) x 22 boundary PCs (region edges, 0x0000, 0xFFFE, straddling 0x3FFF/0x7FFF/0xCFFF) x "
+    "rule": "c06.block also starts blocks at 0xCFF0 / 0xCFFF / 0xDFF8 so that they cross the 4 KiB lines of work RAM and run on into the echo (code there is written through the work-RAM cell it mirrors); c06.block: whole blocks through interpreter::run_code_block - 0..3000 one-byte one-cycle instructions + HALT / EI / DI in ROM bank 0, the switchable bank, work RAM and high RAM must end at the terminator and nowhere else (PC, cycles, status; model of the block loop); every first byte at the six addresses around 0x3FFF/0x7FFF again with ROM banks 2 and 3 mapped (the part of the instruction above 0x4000 must come from the mapped bank); all 256 first bytes (incl. the 11 undefined) x 22 boundary PCs (region edges, 0x0000, 0xFFFE, straddling 0x3FFF/0x7FFF/0xCFFF) x "
             "boundary SPs; 33 control opcodes x all 256 displacement/target bytes x both placements",
     "assumptions": ["theorem hypotheses WF r (pairs < 65536, F low nibble zero; preserved by every instruction, C05.regs_wf) and ByteBus "
                     "(bus reads return bytes)",
